@@ -342,6 +342,12 @@ func checkScaleMode(c ScaleCase, stateOnly bool) pbt.Verdict {
 		}
 		// reported state vs ground truth, per replica, at this quiescent point (renamed survivors,
 		// ended replicas, added and untouched ones alike)
+		// a replica added by this request starts with a fresh record, whatever a removed namesake left behind
+		for i := cur; i < n; i++ {
+			if st, ok := list[newNames[i]]; ok && st.Restarts != 0 {
+				return failState("op %d: replica %s was added by scaling %s %d->%d and reports restarts=%d", oi, newNames[i], op.Proc, cur, n, st.Restarts)
+			}
+		}
 		for name, st := range list {
 			alive := len(after[name]) > 0
 			if st.IsRunning != alive || (st.Status == "Running") != alive {
